@@ -527,7 +527,8 @@ func loadMany() map[string]*packages.Package {
 const enginePkg = "github.com/yandex/pandora/core/engine"
 
 // locksEngineFacts: how the engine gets and uses guns, read off core/engine: every call of the pool's gun factory
-// (`NewGun` / the `newGun` dependency) with the function it occurs in and whether it sits inside a loop; where the
+// (`NewGun` / the `newGun` dependency) with the function it occurs in and whether it sits inside a loop or a function
+// literal; where the
 // `newGun` dependency is wired from; every call of a gun's `Shoot` with its receiver expression.
 func locksEngineFacts(t *tr, p *packages.Package) string {
 	if p == nil {
@@ -544,18 +545,25 @@ func locksEngineFacts(t *tr, p *packages.Package) string {
 			if !ok || fd.Body == nil {
 				continue
 			}
-			var walk func(n ast.Node, inLoop bool)
-			walk = func(n ast.Node, inLoop bool) {
+			var walk func(n ast.Node, inLoop, inLit bool)
+			walk = func(n ast.Node, inLoop, inLit bool) {
 				ast.Inspect(n, func(m ast.Node) bool {
 					switch x := m.(type) {
 					case *ast.ForStmt:
 						if m != n {
-							walk(x, true)
+							walk(x, true, inLit)
 							return false
 						}
 					case *ast.RangeStmt:
 						if m != n {
-							walk(x, true)
+							walk(x, true, inLit)
+							return false
+						}
+					case *ast.FuncLit:
+						// a call inside a function literal (sync.Once body, deferred closure …) does not run once per call of
+						// the enclosing function: the gun factory calls are flagged for it like for a loop
+						if m != n {
+							walk(x, inLoop, true)
 							return false
 						}
 					case *ast.CallExpr:
@@ -568,7 +576,7 @@ func locksEngineFacts(t *tr, p *packages.Package) string {
 							}
 							switch sel.Sel.Name {
 							case "NewGun", "newGun":
-								factory = append(factory, fmt.Sprintf("(%q, %q, %v)", fd.Name.Name, types.ExprString(x.Fun), inLoop))
+								factory = append(factory, fmt.Sprintf("(%q, %q, %v)", fd.Name.Name, types.ExprString(x.Fun), inLoop || inLit))
 							case "Shoot":
 								shoots = append(shoots, fmt.Sprintf("(%q, %q)", fd.Name.Name, types.ExprString(sel.X)))
 							}
@@ -587,7 +595,7 @@ func locksEngineFacts(t *tr, p *packages.Package) string {
 					return true
 				})
 			}
-			walk(fd.Body, false)
+			walk(fd.Body, false, false)
 		}
 	}
 	sort.Strings(factory)
@@ -596,7 +604,7 @@ func locksEngineFacts(t *tr, p *packages.Package) string {
 	sort.Strings(creates)
 	sort.Strings(runs)
 	var b strings.Builder
-	b.WriteString("\n/-- regenerated from core/engine: every call of the gun factory (function, callee, inside a loop?) -/\n")
+	b.WriteString("\n/-- regenerated from core/engine: every call of the gun factory (function, callee, inside a loop or a function literal?) -/\n")
 	b.WriteString("def gunFactoryCalls : List (String × String × Bool) := [" + strings.Join(factory, ", ") + "]\n")
 	b.WriteString("\n/-- where the instances' `newGun` dependency (and any `gun` field) is assigned from -/\n")
 	b.WriteString("def gunWiring : List (String × String) := [" + strings.Join(wiring, ", ") + "]\n")
